@@ -123,12 +123,24 @@ Definition rtbl_get (t : rtable) (n : string) : option (nat * string) :=
 Definition type_holds (e : entry) : bool :=
   if String.eqb sn_key_type "MUTABLE" then e_mut e
   else if String.eqb sn_key_type "IMMUTABLE" then negb (e_mut e) else false.
-Definition is_sensor_key (e : entry) : bool := Bool.eqb (type_holds e) sn_key_type_eq.
+(* whose type is asked: `root.key_type(key)` = the entry itself; `telstate.key_type(key)` on the view = the entry
+   found by resolving the FULL key through the prefixes of the view once more (none if the view is exclusive) -
+   the pinned code before the repair of F-C18x-1 (GENERATED sn_type_through_view) *)
+Fixpoint lookup_entry (st : store) (prefixes : list string) (k : string) : option entry :=
+  match prefixes with
+  | [] => None
+  | p :: ps => match find_key st (p ++ k) with Some e => Some e | None => lookup_entry st ps k end
+  end.
+Definition is_sensor_key_gen (through_view : bool) (prefixes : list string) (all : store) (e : entry) : bool :=
+  match (if through_view then lookup_entry all prefixes (e_key e) else Some e) with
+  | Some x => Bool.eqb (type_holds x) sn_key_type_eq
+  | None => false
+  end.
 (* prefixes.index(key[:len(key) - len(sensor_name)]);  None = the ValueError of list.index *)
 Definition rank_in_code (ps : list string) (key name : string) : option nat :=
   index_of (take (String.length key - String.length name) key) ps.
-Definition sensor_step (prefixes : list string) (t : rtable) (e : entry) : rtable :=
-  if is_sensor_key e then
+Definition sensor_step_gen (through_view : bool) (prefixes : list string) (all : store) (t : rtable) (e : entry) : rtable :=
+  if is_sensor_key_gen through_view prefixes all e then
     let n := shorten_key (scan_prefixes prefixes) (e_key e) in
     if String.eqb n "" then t else
     match rank_in_code prefixes (e_key e) n with
@@ -138,10 +150,14 @@ Definition sensor_step (prefixes : list string) (t : rtable) (e : entry) : rtabl
     | None => t
     end
   else t.
+Definition sensor_step := sensor_step_gen sn_type_through_view.
 Definition sensor_table (prefixes : list string) (st : store) : rtable :=
-  fold_left (sensor_step prefixes) st [].
+  fold_left (sensor_step prefixes st) st [].
 Definition sensor_key (prefixes : list string) (st : store) (n : string) : option string :=
   option_map snd (rtbl_get (sensor_table prefixes st) n).
+(* before the repair of F-C18x-1 (kept for the refutation) *)
+Definition sensor_key_viewtyped (prefixes : list string) (st : store) (n : string) : option string :=
+  option_map snd (rtbl_get (fold_left (sensor_step_gen true prefixes st) st []) n).
 (* the names of the sensors of the data set *)
 Definition sensor_names (prefixes : list string) (st : store) : list string := map fst (sensor_table prefixes st).
 
@@ -520,7 +536,8 @@ Definition wire_18 (x : sx) : sx :=
   | L [I 3; st; prefixes; names] =>
       let st := to_store st in let ps := to_strings prefixes in
       L (map (fun n => L [of_optstring (sensor_key ps st n); of_optstring (spec_sensor st ps n);
-                          of_optstring (tbl_get (sensor_table_unranked ps st) n)]) (to_strings names))
+                          of_optstring (tbl_get (sensor_table_unranked ps st) n);
+                          of_optstring (sensor_key_viewtyped ps st n)]) (to_strings names))
   | L [I 4; kw; url; file] => of_optstring (resolve_id (to_optstring kw) (to_optstring url) (to_optstring file))
   | L [I 5; ty] => of_bool (check_stream_type (to_optstring ty))
   | L [I 6; stream; L [I i; I d; rest]; archived] =>
